@@ -356,7 +356,7 @@ func runC05(c *Ctx) {
 			}
 		})
 	}
-	if m := c.mustFn("C05-R4", serverPkg, "Router.Match"); m != nil {
+	if m := matchLoopFn(c, c.mustFn("C05-R4", serverPkg, "Router.Match")); m != nil {
 		var mrs []ssa.Value
 		eachInstr(m, func(_ *ssa.BasicBlock, _ int, ins ssa.Instruction) {
 			if cl, ok := ins.(*ssa.Call); ok && callName(cl) == serverPath+".matchRoute" {
@@ -732,19 +732,15 @@ func runC05(c *Ctx) {
 		bad := ""
 		var badPos token.Pos
 		n := 0
-		eachInstr(m, func(_ *ssa.BasicBlock, _ int, ins ssa.Instruction) {
-			call, ok := ins.(*ssa.Call)
-			if !ok || callName(call) != serverPath+".matchRoute" {
-				return
-			}
-			n++
-			derivesFrom(call.Call.Args[1], func(v ssa.Value) bool {
-				if cl, ok := v.(*ssa.Call); ok {
+		// the derivation may cross into the helper that holds the candidate loop: judge each function's part
+		var judge func(fn *ssa.Function, v ssa.Value, isSrc func(ssa.Value) bool, depth int)
+		judge = func(fn *ssa.Function, v ssa.Value, isSrc func(ssa.Value) bool, depth int) {
+			derivesFrom(v, func(x ssa.Value) bool {
+				if cl, ok := x.(*ssa.Call); ok {
 					nm := callName(cl)
 					if !allowed[nm] {
-						// only calls that take something derived from the path parameter matter
 						for _, a := range cl.Call.Args {
-							if derivesFrom(a, func(z ssa.Value) bool { return z == ssa.Value(pathParam) }) {
+							if derivesFrom(a, isSrc) {
 								bad = short(nm)
 								badPos = cl.Pos()
 							}
@@ -753,7 +749,30 @@ func runC05(c *Ctx) {
 				}
 				return false
 			})
-		})
+		}
+		mf := matchLoopFn(c, m)
+		if mf != nil {
+			eachInstr(mf, func(_ *ssa.BasicBlock, _ int, ins ssa.Instruction) {
+				call, ok := ins.(*ssa.Call)
+				if !ok || callName(call) != serverPath+".matchRoute" {
+					return
+				}
+				n++
+				if mf == m {
+					judge(m, call.Call.Args[1], func(z ssa.Value) bool { return z == ssa.Value(pathParam) }, 0)
+					return
+				}
+				// in the helper: anything derived from its parameters; then the arguments Match hands to the helper
+				judge(mf, call.Call.Args[1], func(z ssa.Value) bool { _, isP := z.(*ssa.Parameter); return isP }, 0)
+				eachInstr(m, func(_ *ssa.BasicBlock, _ int, i2 ssa.Instruction) {
+					if c2, ok := i2.(*ssa.Call); ok && staticFn(c2) == mf {
+						for _, a := range c2.Call.Args {
+							judge(m, a, func(z ssa.Value) bool { return z == ssa.Value(pathParam) }, 0)
+						}
+					}
+				})
+			})
+		}
 		if badPos == token.NoPos {
 			badPos = m.Pos()
 		}
@@ -941,4 +960,34 @@ func runC05(c *Ctx) {
 			c.info("C05-R6", fnKey(mr)+"#no-string-comparison", mr.Pos(), "matchRoute compares no strings")
 		}
 	}
+}
+
+// matchLoopFn: the function that holds Router.Match's candidate loop - Match itself, or the helper of the package it
+// delegates to (the one that calls matchRoute).
+func matchLoopFn(c *Ctx, m *ssa.Function) *ssa.Function {
+	if m == nil {
+		return nil
+	}
+	calls := func(f *ssa.Function) bool {
+		found := false
+		eachCall(f, func(call ssa.CallInstruction) {
+			if callName(call) == serverPath+".matchRoute" {
+				found = true
+			}
+		})
+		return found
+	}
+	if calls(m) {
+		return m
+	}
+	var out *ssa.Function
+	eachCall(m, func(call ssa.CallInstruction) {
+		if sf := staticFn(call); sf != nil && sf.Pkg == m.Pkg && out == nil && calls(sf) {
+			out = sf
+		}
+	})
+	if out == nil {
+		return m
+	}
+	return out
 }
